@@ -178,6 +178,7 @@ static void mk_aead(const Args &a) {
     settape(a);
     InBuf nb(n), adb(ad), mb(m); OutBuf out(m.size() + 16); size_t clen = 0;
     void *k = obj_get(id, sc == "aead80pq" ? "mkey160" : "mkey128").mem;
+    obj_protect(id, true);          // the key parameter is const: read-only for the duration of the calls
     if (sc == "aead128") ascon128_masked_aead_encrypt(out.p, &clen, mb.p, m.size(), adb.p, adb.n, nb.p, (const ascon_masked_key_128_t *)k);
     else if (sc == "aead128a") ascon128a_masked_aead_encrypt(out.p, &clen, mb.p, m.size(), adb.p, adb.n, nb.p, (const ascon_masked_key_128_t *)k);
     else ascon80pq_masked_aead_encrypt(out.p, &clen, mb.p, m.size(), adb.p, adb.n, nb.p, (const ascon_masked_key_160_t *)k);
@@ -194,6 +195,7 @@ static void mk_aead(const Args &a) {
     else { r1 = ascon80pq_masked_aead_decrypt(pt.p, &ml, cb.p, cb.n, adb.p, adb.n, nb.p, (const ascon_masked_key_160_t *)k);
            r2 = ascon80pq_masked_aead_decrypt(pt2.p, &ml2, bb.p, bb.n, adb.p, adb.n, nb.p, (const ascon_masked_key_160_t *)k); }
     bool same = memcmp(&kraw[0], k, ksz) == 0;
+    if (id < 1000) obj_protect(id, false);
     Ev ev("mk.aead"); ev.s("scheme", sc).n("obj", id).b("n", n).b("ad", ad).b("m", m).n("clen", (long long)clen).b("out", ct).n("guard", out.guards_ok() && pt.guards_ok() && pt2.guards_ok())
         .n("dec", r1 < 0 ? -1 : r1).b("pt", pt.get(m.size())).n("forged", r2 < 0 ? -1 : r2).n("key_same", same ? 1 : 0); ev.emit();
 }
